@@ -839,7 +839,7 @@ class StoryMove(MosFile):
         story is to be moved
         """
         stories = self.base_tag.findall('storyID')
-        if len(stories) < 2:
+        if len(stories) < 2 or stories[1].text is None:
             return
         return Story(self.base_tag, id=stories[1].text, unknown_items=True)
 
@@ -1864,8 +1864,11 @@ class EAStoryMove(ElementAction):
         The :class:`~mosromgr.moselements.Story` object above which the other
         stories will be moved
         """
-        if self.base_tag.find('element_target') is not None:
-            return Story(self.base_tag.find('element_target'), unknown_items=True)
+        target = self.base_tag.find('element_target')
+        if target is not None:
+            story_id = target.find('storyID')
+            if story_id is not None and story_id.text is not None:
+                return Story(target, unknown_items=True)
 
     @property
     def stories(self) -> List[Story]:
